@@ -259,6 +259,13 @@ apply_step(const step_t *s) {
 
 	switch (s->op) {
 	case S_ADD:
+		if (ID_P == s->id && child_pid > 0) {
+			/* the record already tracks its process: a second add is refused (EEXIST) or, were it accepted, replaces the
+			 * flags; a refused call leaves the registration as it was - the exit must still be reported */
+			rc = tpt_ev_add_args(t0, TP_EV_PROC, s->b, 0, 0, &r->ud);
+			if (0 == rc) { r->m_reg = 1; r->m_en = 1; r->m_event = TP_EV_PROC; r->m_flags = s->b; r->m_ready = !child_alive; }
+			break;
+		}
 		if (ID_P == s->id) {
 			int pp[2];
 			if (child_alive || 0 != pipe(pp)) break;
@@ -669,6 +676,7 @@ validation_grid(void) {
 static void
 enumerate_proc(int depth, int preg, int forked, int alive, int areg) {
 	static const int flagset[3] = { 0, TP_F_ONESHOT, TP_F_DISPATCH };
+	static int readds = 0;	/* second adds on the current path: one per history keeps the space affordable (every history forks) */
 	int f, total;
 
 	if (depth > 0) {
@@ -688,6 +696,7 @@ enumerate_proc(int depth, int preg, int forked, int alive, int areg) {
 		for (f = 0; f < 3; f ++) { PUSH(S_ADD, ID_P, TP_EV_PROC, flagset[f]); enumerate_proc(depth + 1, 1, 1, 1, areg); }
 	}
 	if (1 == preg) {
+		if (0 == readds) for (f = 0; f < 3; f ++) { readds ++; PUSH(S_ADD, ID_P, TP_EV_PROC, flagset[f]); enumerate_proc(depth + 1, 1, forked, alive, areg); readds --; }	/* add again */
 		PUSH(S_DEL, ID_P, 0, 0); enumerate_proc(depth + 1, 0, forked, alive, areg);
 		PUSH(S_DISABLE, ID_P, 0, 0); enumerate_proc(depth + 1, 2, forked, alive, areg);
 	}
